@@ -73,7 +73,9 @@ func runC07(c *core.Ctx) *core.Outcome {
 	wp.UseBackend()
 	defer wp.Close()
 	P := wp.NewSession("sess", true)
-	wm := world.New(a, cfg)
+	cfgM := cfg
+	cfgM.FinishLate = t.Chance(1, 3) // the mixed twin may finish an engine only when it is retired
+	wm := world.New(a, cfgM)
 	wm.UseBackend()
 	defer wm.Close()
 	M := wm.NewSession("sess", true)
